@@ -4,7 +4,7 @@
    `got.astype(expected.dtype)` narrowing cast), [compare_fixed] the model of the repaired code
    (.scratch/c18/fix.diff).  harness/c18.py ties whichever of the two the running code implements. *)
 From Coq Require Import ZArith QArith Reals Qreals List Bool.
-From J2O Require Import PyLib Dtype Allclose OrtFeed.
+From J2O Require Import PyLib Dtype Allclose OrtFeed OrtCoerce.
 Import ListNotations.
 
 (* THE PROPERTY, at full strength, for the repaired comparison: a "match" verdict implies equal output
@@ -160,3 +160,39 @@ Theorem C18_feed_no_params_is_zip :
     List.length xs = List.length names -> route V names xs [] = inl (combine names xs).
 Proof. exact route_no_params. Qed.
 Print Assumptions C18_feed_no_params_is_zip.
+
+(* ---- per-value coercion of the feed (user_interface._to_numpy_input; model theories/OrtCoerce.v [coerce]) *)
+
+(* whenever the stored model declares an element type of the table, the value is fed with exactly that dtype, or the
+   call raises: the model is never run on a value of another type than it declares *)
+Theorem C18_coerce_feeds_declared_type : forall arr ndim ty shape t o,
+  target_of ty = Some t -> coerce arr ndim ty shape = o ->
+  fed_dtype arr o = Some t \/ o = ErrTrailing \/ o = ErrNoPack.
+Proof. exact coerce_feeds_declared. Qed.
+Print Assumptions C18_coerce_feeds_declared_type.
+
+(* a complex argument headed for a real-typed model input is never narrowed silently (imaginary part dropped): it is
+   packed as a trailing pair of reals, or the call raises *)
+Theorem C18_coerce_complex_never_cast : forall arr ndim ty shape t,
+  is_complex arr = true -> target_of ty = Some t -> is_floating t = true ->
+  match coerce arr ndim ty shape with PackTo t' => t' = t | ErrTrailing | ErrNoPack => True | _ => False end.
+Proof. exact coerce_complex_never_cast. Qed.
+Print Assumptions C18_coerce_complex_never_cast.
+
+Theorem C18_coerce_pack_only_with_room : forall arr ndim ty shape t,
+  coerce arr ndim ty shape = PackTo t ->
+  is_complex arr = true /\ exists sh, shape = Some sh /\ List.length sh = (ndim + 1)%nat /\
+    (last sh DSym = DInt 2 \/ last sh DSym = DSym).
+Proof. exact coerce_pack_only_with_room. Qed.
+Print Assumptions C18_coerce_pack_only_with_room.
+
+(* a value that already has the declared dtype, or whose input declares nothing in the table, is fed untouched *)
+Theorem C18_coerce_keep_same : forall arr ndim ty shape,
+  is_complex arr = false -> target_of ty = Some arr -> coerce arr ndim ty shape = Keep.
+Proof. exact coerce_keep_same. Qed.
+Print Assumptions C18_coerce_keep_same.
+
+Theorem C18_coerce_keep_unknown : forall arr ndim ty shape,
+  target_of ty = None -> coerce arr ndim ty shape = Keep.
+Proof. exact coerce_keep_unknown. Qed.
+Print Assumptions C18_coerce_keep_unknown.
